@@ -590,8 +590,8 @@ func (p c05) mixin(c *core.Ctx) {
 func (p c05) unsettable(c *core.Ctx) {
 	g := world.NewG(c.Rng)
 	h := g.AddNode([]int{0, 1, 3, 6}[c.Rng.Intn(4)], g.FreshName(0)) // eager, Init and/or AfterPropertiesSet, the only IA
-	other := g.AddNode([]int{2, 13}[c.Rng.Intn(2)], g.FreshName(1))    // an IB, not an IA
-	g.SetTag(h, []string{"IA0", "IA1"}[c.Rng.Intn(2)], "wire", "")      // by type: only the holder itself fits
+	other := g.AddNode([]int{2, 13}[c.Rng.Intn(2)], g.FreshName(1))  // an IB, not an IA
+	g.SetTag(h, []string{"IA0", "IA1"}[c.Rng.Intn(2)], "wire", "")   // by type: only the holder itself fits
 	// later points (field order) that can be set
 	g.SetTag(h, "IB0", "wire", g.Sc.Nodes[other].DisplayName())
 	if c.Rng.Intn(2) == 0 {
